@@ -4,6 +4,7 @@ import inspect
 import itertools
 import sys
 import textwrap
+import threading
 import typing
 from collections import OrderedDict, defaultdict
 from dataclasses import dataclass, field, replace
@@ -109,7 +110,7 @@ class LazySignature(inspect.Signature):
 
 def bootstrap_dispatch(ov, name):
     def first_entry(*args, **kwargs):
-        ov.compile()
+        ov.ensure_compiled()
         return ov.dispatch(*args, **kwargs)
 
     dispatch = FunctionType(
@@ -368,6 +369,7 @@ class Ovld:
         """Initialize an Ovld."""
         self.id = next(_current_id)
         self._compiled = False
+        self._compile_lock = threading.RLock()
         self.linkback = linkback
         self.children = []
         self.allow_replacement = allow_replacement
@@ -484,21 +486,25 @@ class Ovld:
 
     def ensure_compiled(self):
         if not self._compiled:
-            self.compile()
+            # Only one thread builds; the others wait and use its result.
+            with self._compile_lock:
+                if not self._compiled:
+                    self.compile()
 
     def compile(self):
-        try:
-            self._compile()
-        except BaseException:
-            # Do not leave a half-built table in service: the next call
-            # builds again (and reports the problem again if it persists).
-            self._compiled = False
-            if hasattr(self, "dispatch"):
-                fresh = bootstrap_dispatch(self, name=self.shortname)
-                self.dispatch.__code__ = fresh.__code__
-                self.dispatch.__defaults__ = None
-                self.dispatch.__kwdefaults__ = None
-            raise
+        with self._compile_lock:
+            try:
+                self._compile()
+            except BaseException:
+                # Do not leave a half-built table in service: the next call
+                # builds again (and reports the problem again if it persists).
+                self._compiled = False
+                if hasattr(self, "dispatch"):
+                    fresh = bootstrap_dispatch(self, name=self.shortname)
+                    self.dispatch.__code__ = fresh.__code__
+                    self.dispatch.__defaults__ = None
+                    self.dispatch.__kwdefaults__ = None
+                raise
 
     def _compile(self):
         """Finalize this overload.
@@ -522,16 +528,20 @@ class Ovld:
         dispatch = generate_dispatch(self, self.argument_analysis)
         if not hasattr(self, "dispatch"):
             self.dispatch = bootstrap_dispatch(self, name=self.shortname)
-        self.dispatch.__code__ = rename_code(dispatch.__code__, self.shortname)
+
+        # Fill the table before the entry point that reads it goes into
+        # service: until then callers still go through the first-call
+        # trampoline and wait for this build.
+        for key, fn in list(self.defns.items()):
+            self.register_signature(key, fn)
+
         self.dispatch.__kwdefaults__ = dispatch.__kwdefaults__
         self.dispatch.__annotations__ = dispatch.__annotations__
         self.dispatch.__defaults__ = dispatch.__defaults__
         self.dispatch.__globals__.update(dispatch.__globals__)
         self.dispatch.map = self.map
         self.dispatch.__doc__ = self.mkdoc()
-
-        for key, fn in list(self.defns.items()):
-            self.register_signature(key, fn)
+        self.dispatch.__code__ = rename_code(dispatch.__code__, self.shortname)
 
         self._compiled = True
 
@@ -618,8 +628,7 @@ class Ovld:
             return ov
 
     def __get__(self, obj, cls):
-        if not self._compiled:
-            self.compile()
+        self.ensure_compiled()
         return self.dispatch.__get__(obj, cls)
 
     @_setattrs(rename="dispatch")
@@ -628,8 +637,7 @@ class Ovld:
 
         This should be replaced by an auto-generated function.
         """
-        if not self._compiled:
-            self.compile()
+        self.ensure_compiled()
         return self.dispatch(*args, **kwargs)
 
     @_setattrs(rename="next")
